@@ -146,8 +146,6 @@ impl<F: Fn(SimplexDirection, usize) + Send> SimplexPipe<F> {
         timeout: Duration,
     ) -> Result<ExchangeOnceStatus<T>, Error<T>> {
         loop {
-            self.last_activity = Instant::now();
-
             let future = async {
                 if self.pending_chunk.is_none() {
                     let x = self.source.read().await?;
@@ -174,6 +172,9 @@ impl<F: Fn(SimplexDirection, usize) + Send> SimplexPipe<F> {
                 Ok(x) => x.map_err(|e| io_to_pipe_error(id, e))?,
                 Err(_elapsed) => break Ok(ExchangeOnceStatus::TimedOut(id)),
             };
+            // only actual progress counts as activity: restarting the loop after the other
+            // direction's timer fired must not postpone the idle expiration
+            self.last_activity = Instant::now();
 
             match data {
                 Data::Chunk(bytes) => {
